@@ -1271,9 +1271,10 @@ func bleed(tokens []Token, _ string) pr.CssProperty {
 	keyword := getKeyword(token)
 	if keyword == "auto" {
 		return pr.DimOrS{S: "auto"}
-	} else {
-		return getLength(token, true, false).ToValue()
+	} else if l := getLength(token, true, false); !l.IsNone() {
+		return l.ToValue()
 	}
+	return nil
 }
 
 // @validator()
